@@ -469,3 +469,44 @@ Proof.
   destruct (run_lists _ _ _ _ H) as [Hs _]. simpl in Hs. rewrite app_nil_r in Hs.
   rewrite Hs, cnt_rev in HU. exact HU.
 Qed.
+
+(* ---------- stop_data is processed last ---------- *)
+Definition other_run_step (id : nat) (x : ostep) : Prop :=
+  match x with
+  | OStart _ i => i <> id
+  | OEnd _ i _ => i <> id
+  | _ => False
+  end.
+
+Lemma stop_last_seen : forall id xs, stop_last id true xs = true -> forall x, In x xs -> ~ other_run_step id x.
+Proof.
+  intros id xs; induction xs as [|y r IH]; intros H x Hin; [destruct Hin|].
+  destruct Hin as [Hx|Hx].
+  - subst y; destruct x as [t i|t i|t i o|t i o|t n|t]; simpl in *; try tauto.
+    + destruct (Nat.eqb i id) eqn:E; [apply Nat.eqb_eq in E; intros Hne; apply Hne; exact E | discriminate].
+    + destruct (Nat.eqb i id) eqn:E; [apply Nat.eqb_eq in E; intros Hne; apply Hne; exact E | discriminate].
+  - apply IH; [|exact Hx].
+    destruct y as [t i|t i|t i o|t i o|t n|t]; simpl in H; try exact H.
+    + destruct (Nat.eqb i id); [exact H | discriminate].
+    + destruct (Nat.eqb i id); [exact H | discriminate].
+Qed.
+
+Lemma stop_last_after : forall id pre seen t post,
+  stop_last id seen (pre ++ OStart t id :: post) = true -> stop_last id true post = true.
+Proof.
+  intros id pre; induction pre as [|y r IH]; intros seen t post H.
+  - simpl in H; rewrite Nat.eqb_refl in H; exact H.
+  - destruct y as [u i|u i|u i o|u i o|u n|u]; simpl in H; try (eapply IH; exact H).
+    + destruct (Nat.eqb i id); [eapply IH; exact H|].
+      apply andb_true_iff in H; destruct H as [_ H]; eapply IH; exact H.
+    + destruct (Nat.eqb i id); [eapply IH; exact H|].
+      apply andb_true_iff in H; destruct H as [_ H]; eapply IH; exact H.
+Qed.
+
+(* once the run for the stop_data (put id) has started, no other run starts or ends *)
+Theorem stop_data_last : forall id pre t post,
+  stop_last id false (pre ++ OStart t id :: post) = true ->
+  forall x, In x post -> ~ other_run_step id x.
+Proof.
+  intros id pre t post H; apply stop_last_seen; eapply stop_last_after; exact H.
+Qed.
